@@ -284,6 +284,13 @@ class Segment:
                               handle, op["i"]), self.model_tags(handle) + ["hist.frame"])
                 entry["flat"] = now
                 entry["tainted"] = True
+                try:
+                    # (reported above; a model that is no longer a tree is not handed to the
+                    # library again: its recursive consumers would take exponential time)
+                    entry["not_tree"] = any(c == "wf.child_multiplicity" for c, _ in
+                                            self.bridge.wellformed(entry["obj"]))
+                except Exception:  # noqa: BLE001
+                    entry["not_tree"] = True
 
     def register(self, handle, obj, ref, **extra):
         entry = {"obj": obj, "ref": ref, "version": 0}
@@ -376,7 +383,7 @@ class Segment:
     def op_WRITE(self, op, rec):
         fmt = op["fmt"]
         entry = self.models.get(op["m"])
-        if entry is None:
+        if entry is None or entry.get("not_tree"):
             rec["outcome"] = "skipped"
             return
         wcls = self.cls(WRITERS, fmt)
@@ -778,15 +785,26 @@ class Segment:
             # C02, always on
             wf_ok = True
             try:
-                bad = self.bridge.wellformed(model) + self.bridge.traverse(model)
+                bad = self.bridge.wellformed(model)
+                # a model that is not a tree (a child reached through two relations) makes
+                # every recursive consumer, str(model) first of all, take time exponential in
+                # its depth: it has failed already, the consumers are not run on it
+                not_a_tree = any(check in ("wf.child_multiplicity", "wf.root_parent",
+                                           "wf.child_parent") for check, _ in bad)
+                if not not_a_tree:
+                    bad = bad + self.bridge.traverse(model)
             except Exception as err:  # noqa: BLE001
                 bad = [("wf.walk_raised", "%s: %s" % (type(err).__name__, err))]
-            try:
-                observed = self.bridge.observe(model)
-                rec["model"] = sha(rm.cj(rm.flat(observed)))
-            except Exception as err:  # noqa: BLE001
-                observed = None
-                self.fail("C02", "wf.walk_raised", site, "observe: %s" % type(err).__name__, tags)
+                not_a_tree = True
+            observed = None
+            if not not_a_tree:
+                try:
+                    observed = self.bridge.observe(model)
+                    rec["model"] = sha(rm.cj(rm.flat(observed)))
+                except Exception as err:  # noqa: BLE001
+                    observed = None
+                    self.fail("C02", "wf.walk_raised", site, "observe: %s" % type(err).__name__,
+                              tags)
             wf_tags = list(tags)
             if observed is not None:
                 # what the returned model itself contains (the document may be damaged or of
@@ -991,7 +1009,7 @@ class Segment:
 
     def op_EXEC(self, op, rec):
         entry = self.models.get(op["m"])
-        if entry is None:
+        if entry is None or entry.get("not_tree"):
             rec["outcome"] = "skipped"
             return
         name = op["name"]
@@ -1455,7 +1473,7 @@ class Segment:
 
     def op_RANDATTR(self, op, rec):
         entry = self.models.get(op["m"])
-        if entry is None:
+        if entry is None or entry.get("not_tree"):
             rec["outcome"] = "skipped"
             return
         from flamapy.core.exceptions import FlamaException
